@@ -94,7 +94,7 @@ def run(report, tier):
                     r.api not in {s["api"] for s in samples}:
                 samples.append({"root": r.sym, "api": r.api, "bound": t, "budget": budget,
                                 "loops": [{"fn": lp["fn"][-60:], "bound": lp["bound"], "rule": lp["rule"][:90],
-                                           "where": lp["where"][:120]} for lp in res["loops"]]})
+                                           "where": lp.get("where", "")[:120]} for lp in res["loops"]]})
     floors = C.load_json(run_a.FLOORS_PATH, default={})
     want = floors.get(tier, {}).get("L")
     if want is not None and nroots < want:
